@@ -190,7 +190,8 @@ class C09(Prop):
     PROPS_FILE = "Props/C09.v"
     CORR_MODULE = "DbCache.Corr"
     MAX_WORKERS = 8
-    CASE_TIMEOUT = 120
+    CASE_TIMEOUT = 900      # generous: the machine is shared; a hang is still reported, just later
+    SHARD_TIMEOUT = 3600
     COQ_SHARD = 40
     LEVEL_TEXT = ""   # set below
     TECHNIQUE = ("Coq proof (invariant over operation sequences: every cached cell equals the stored row; simulation "
@@ -430,6 +431,9 @@ class C09(Prop):
         self.asyncio, self.os, self.utils, self.SqliteDatabase, self.types = asyncio, os, utils, SqliteDatabase, types
         self.dir = tempfile.mkdtemp(prefix="sfv-c09-", dir="/var/tmp")
         atexit.register(shutil.rmtree, self.dir, True)
+        for names in TYPES.values():          # import the classes now, not inside the first timed case
+            for n in names:
+                utils.get_class_from_name(n)
         self.loop = asyncio.new_event_loop()
         self.k = 0
 
